@@ -401,6 +401,31 @@ where
         diff: &Diff<T>,
     ) -> StdResult<(), Self::Error> {
         // Create a snapshot for disc-based implementations
+        // Verify the checkpoint before touching the file so that
+        // a refused request leaves the event log as it was, also when
+        // there is nothing to snapshot or the replacement is empty
+        let expected = {
+            let mut hashes = diff
+                .patch
+                .records()
+                .iter()
+                .map(|r| *r.commit().as_ref())
+                .collect::<Vec<_>>();
+            let mut tree = CommitTree::new();
+            tree.append(&mut hashes);
+            tree.commit();
+            tree.head()?
+        };
+        if expected != diff.checkpoint {
+            return Err(Error::CheckpointVerification {
+                checkpoint: diff.checkpoint.root,
+                computed: expected.root,
+                snapshot: None,
+                rollback_completed: false,
+            }
+            .into());
+        }
+
         let snapshot = self.try_create_snapshot().await?;
 
         // Erase the file content and in-memory merkle tree
